@@ -1,4 +1,199 @@
-(* ExtractFS.v -- stub; the model that belongs here is being written. *)
-From P7 Require Import Prelude.
+(* ExtractFS.v -- SevenZipFile._extract + Worker.extract + Worker._extract_single + the post-pass of
+   py7zr/py7zr.py as a program over the filesystem model FS.v (the part of extraction that touches
+   the filesystem; decompression is taken as delivering each member's bytes).
+
+   mirrored line by line from py7zr.py 529-656 (registration, duplicate renaming, directory
+   pre-pass, post-pass) and 1273-1449 (order of members, per-member dispatch). *)
+From P7 Require Import Prelude FS.
 Open Scope Z_scope.
-Definition fs_dispatch (fn : Z) (a : tree) : tree := TL [TI (-2)].
+
+(* one archive member as extraction sees it *)
+Record entry := mkE {
+  e_name : str;        (* f.filename *)
+  e_kind : Z;          (* 0 regular file, 1 directory (f.is_directory), 2 symbolic link (f.is_symlink) *)
+  e_data : str;        (* content; for a link the UTF-8 decoded target text *)
+  e_empty : bool;      (* f.emptystream *)
+  e_mtime : bool;      (* "lastwritetime" present: os.utime in the post-pass *)
+  e_chmod : bool       (* posix_mode present (or read-only attribute): chmod in the post-pass *)
+}.
+
+(* "_%d" % n *)
+Fixpoint dec_digits (fuel : nat) (n : Z) (acc : str) : str :=
+  match fuel with
+  | O => acc
+  | S f => let acc' := (48 + n mod 10) :: acc in
+           if n / 10 =? 0 then acc' else dec_digits f (n / 10) acc'
+  end.
+Definition dec (n : Z) : str := dec_digits 30 n [].
+
+Fixpoint count_of (names : list (str * Z)) (n : str) : option Z :=
+  match names with
+  | [] => None
+  | (m, k) :: r => if str_eqb m n then Some k else count_of r n
+  end.
+Fixpoint bump (names : list (str * Z)) (n : str) : list (str * Z) :=
+  match names with
+  | [] => []
+  | (m, k) :: r => if str_eqb m n then (m, k + 1) :: r else (m, k) :: bump r n
+  end.
+
+(* the name a member is written under: py7zr.py 578-583 *)
+Definition outname (names : list (str * Z)) (n : str) : str * list (str * Z) :=
+  match count_of names n with
+  | None => (n, (n, 0) :: names)
+  | Some k => (n ++ [95] ++ dec k, bump names n)
+  end.
+
+Section Extract.
+Variable cwd : rpath.
+Variable dest : option ppath.        (* the `path` argument as a path object, None = cwd *)
+
+(* the path handed to the sanitiser: py7zr.py 584-587 *)
+Definition sanitize_base : option ppath :=
+  match dest with
+  | None => None
+  | Some p => Some (if p_is_abs p then p else pjoinp (mkP 1 cwd) p)
+  end.
+
+Record reg := mkR {
+  r_out : list (entry * option ppath);   (* worker.register_filelike: None = not registered (directories) *)
+  r_files : list (ppath * entry);        (* target_files, newest first *)
+  r_dirs : list ppath                    (* target_dirs, newest first *)
+}.
+
+(* the registration loop: py7zr.py 564-607; a name the sanitiser refuses aborts with Bad7zFile *)
+Fixpoint register (es : list entry) (names : list (str * Z)) (r : reg) : M reg :=
+  match es with
+  | [] => ret r
+  | e :: es' =>
+    let '(nm, names') := outname names (e_name e) in
+    match get_sanitized_output_path nm cwd sanitize_base with
+    | None => raise XBad7z
+    | Some o =>
+      if e_kind e =? 1 then
+        let* ex := path_exists cwd o in
+        if ex then register es' names' (mkR ((e, None) :: r_out r) (r_files r) (r_dirs r))
+        else register es' names' (mkR ((e, None) :: r_out r) ((o, e) :: r_files r) (o :: r_dirs r))
+      else if e_kind e =? 2 then
+        register es' names' (mkR ((e, Some o) :: r_out r) (r_files r) (r_dirs r))
+      else
+        register es' names' (mkR ((e, Some o) :: r_out r) ((o, e) :: r_files r) (r_dirs r))
+    end
+  end.
+
+(* py7zr.py 608-617 *)
+Fixpoint make_dirs (ds : list ppath) : M unit :=
+  match ds with
+  | [] => ret tt
+  | d :: ds' =>
+    let* _ := catch (path_mkdir cwd (mkdir_fuel d) d true false) (fun x =>
+      match x with
+      | XExist => let* isd := path_is_dir cwd d in if isd then ret tt else raise XDecomp
+      | _ => raise x
+      end) in
+    make_dirs ds'
+  end.
+
+(* one member in Worker._extract_single: py7zr.py 1395-1444 *)
+Definition extract_one (eo : entry * option ppath) : M unit :=
+  let '(e, o) := eo in
+  match o with
+  | None => ret tt
+  | Some fileish =>
+    let* _ := path_mkdir cwd (mkdir_fuel (pparent fileish)) (pparent fileish) true true in
+    if e_empty e then path_touch cwd fileish
+    else if e_kind e =? 2 then
+      match dest with
+      | None => raise XAttr                       (* is_path_valid(..., None): None.is_absolute() *)
+      | Some path =>
+        if is_path_valid (pjoin (pparent fileish) (e_data e)) cwd path then
+          let* ex := path_exists cwd fileish in
+          let* _ := (if ex then sys_unlink cwd fileish else ret tt) in
+          sys_symlink cwd (pparse (e_data e)) fileish
+        else raise XBad7z
+      end
+    else sys_open_wb cwd fileish (e_data e)
+  end.
+
+Fixpoint extract_each (l : list (entry * option ppath)) : M unit :=
+  match l with
+  | [] => ret tt
+  | eo :: l' => let* _ := extract_one eo in extract_each l'
+  end.
+
+(* py7zr.py 638-655 *)
+Fixpoint post_pass (l : list (ppath * entry)) : M unit :=
+  match l with
+  | [] => ret tt
+  | (o, e) :: l' =>
+    let* _ := (if e_mtime e then sys_utime cwd o else ret tt) in
+    let* _ := (if e_chmod e then sys_chmod cwd o else ret tt) in
+    post_pass l'
+  end.
+
+(* mode 0: one folder (or none): archive order.  mode 1: several folders, sequential: members with an
+   empty stream first, then the others folder by folder = archive order (py7zr.py 1291-1306) *)
+Definition worker_order (mode : Z) (l : list (entry * option ppath)) : list (entry * option ppath) :=
+  if mode =? 0 then l
+  else filter (fun eo => e_empty (fst eo)) l ++ filter (fun eo => negb (e_empty (fst eo))) l.
+
+(* py7zr.py 546-558 *)
+Definition prepare_dest : M unit :=
+  match dest with
+  | None => ret tt
+  | Some p =>
+    let* ex := path_exists cwd p in
+    if ex then ret tt
+    else catch (path_mkdir cwd (mkdir_fuel p) p true false) (fun x =>
+      match x with
+      | XExist => let* isd := path_is_dir cwd p in if isd then ret tt else raise x
+      | _ => raise x
+      end)
+  end.
+
+Definition extract (es : list entry) (mode : Z) : M unit :=
+  let* _ := prepare_dest in
+  let* r := register es [] (mkR [] [] []) in
+  let* _ := make_dirs (sort_paths (rev (r_dirs r))) in
+  let* _ := extract_each (worker_order mode (rev (r_out r))) in
+  post_pass (rev (r_files r)).
+
+End Extract.
+
+Definition extract_fs (f : fs) (cwd : rpath) (dest : option ppath) (es : list entry) (mode : Z) : out unit :=
+  extract cwd dest es mode (mkSt f []).
+
+(* ------------------------------------------------------------------ dispatcher (FN 120-159) *)
+Definition of_entry (t : tree) : entry :=
+  mkE (of_str (tnth t 0)) (of_TI (tnth t 1)) (of_str (tnth t 2)) (of_bool (tnth t 3))
+      (of_bool (tnth t 4)) (of_bool (tnth t 5)).
+Definition t_out (o : out unit) : tree :=
+  match o with
+  | Ret _ s => TL [TL [TI 0]; t_effects (s_eff s); t_fs (s_fs s)]
+  | Exc x s => TL [TL [TI 1; TI (exn_code x)]; t_effects (s_eff s); t_fs (s_fs s)]
+  end.
+
+Definition fs_dispatch (fn : Z) (a : tree) : tree :=
+  match fn with
+  (* FN 120 fs_extract : (fs cwd dest? entries mode) -> (result effects fs) *)
+  | 120 => t_out (extract_fs (of_fs (tnth a 0)) (of_rpath (tnth a 1)) (of_opt of_ppath (tnth a 2))
+                             (map of_entry (of_TL (tnth a 3))) (of_TI (tnth a 4)))
+  (* FN 121 fs_sanitize : (name cwd dest?) -> () | (ppath) *)
+  | 121 => t_opt t_ppath (get_sanitized_output_path (of_str (tnth a 0)) (of_rpath (tnth a 1))
+                                                     (of_opt of_ppath (tnth a 2)))
+  (* FN 122 fs_is_path_valid : (target cwd parent) -> bool *)
+  | 122 => t_bool (is_path_valid (of_ppath (tnth a 0)) (of_rpath (tnth a 1)) (of_ppath (tnth a 2)))
+  (* FN 123 fs_pparse : str -> ppath *)
+  | 123 => t_ppath (pparse (of_str a))
+  (* FN 124 fs_canonical : ppath -> ppath *)
+  | 124 => t_ppath (canonical_path (of_ppath a))
+  (* FN 125 fs_ops : (fs cwd ops) -> (codes effects fs) *)
+  | 125 => let '(codes, s) := run_ops (of_rpath (tnth a 1)) (map of_fsop (of_TL (tnth a 2)))
+                                      (mkSt (of_fs (tnth a 0)) []) in
+           TL [TL (map TI codes); t_effects (s_eff s); t_fs (s_fs s)]
+  (* FN 126 fs_sort : (ppath...) -> (ppath...) *)
+  | 126 => TL (map t_ppath (sort_paths (map of_ppath (of_TL a))))
+  (* FN 127 fs_joinstr : (ppath str) -> ppath *)
+  | 127 => t_ppath (pjoin (of_ppath (tnth a 0)) (of_str (tnth a 1)))
+  | _ => TL [TI (-2)]
+  end.
